@@ -129,6 +129,10 @@ func runC19(r *kit.Run) {
 		}
 		rng := r.Rng("hdr", i)
 		shape := c19Shape(rng, i)
+		if i%3 == 2 {
+			c19Session(r, i, rng, shape)
+			continue
+		}
 		vals := c19Values(rng, shape)
 		caseDesc := map[string]any{"min": shape.Min, "max": shape.Max, "sigfigs": shape.Sig, "values": clipVals(vals)}
 		viol := func(kind, detail string) {
@@ -298,4 +302,224 @@ func clipVals(v []int64) []int64 {
 		return v[:24]
 	}
 	return v
+}
+
+// c19Queries compares the answers of h with the recorded multiset vals
+// (TotalCount, quantiles, Min, Max). It returns the first disagreement.
+func c19Queries(h *hdrhist.Histogram, vals []int64, shape c19shape, rng *rand.Rand, all bool) (string, string) {
+	if h.TotalCount() != int64(len(vals)) {
+		return "TotalCount/mismatch", fmt.Sprintf("TotalCount()=%d after %d recorded occurrences", h.TotalCount(), len(vals))
+	}
+	if len(vals) == 0 {
+		// an empty histogram answers something, without panicking
+		_, _, _ = h.ValueAtQuantile(50), h.Min(), h.Max()
+		return "", ""
+	}
+	sorted := append([]int64(nil), vals...)
+	sort.Slice(sorted, func(a, b int) bool { return sorted[a] < sorted[b] })
+	unitW := int64(1) << uint(bits.Len64(uint64(shape.Min))-1)
+	bound := func(exact int64) int64 {
+		b := int64(float64(exact) / math.Pow10(shape.Sig))
+		if unitW > b {
+			b = unitW
+		}
+		return b
+	}
+	qs := []float64{100, 100 * rng.Float64(), 100 * rng.Float64(), 100.0 / float64(len(vals))}
+	if all {
+		qs = append(qs, 25, 50, 90, 99, 99.9, 99.99, 0.01, 100*float64(len(vals)-1)/float64(len(vals)))
+	}
+	for _, q := range qs {
+		if q <= 0 {
+			continue
+		}
+		rank := int64(((q / 100) * float64(len(vals))) + 0.5)
+		if rank < 1 {
+			continue
+		}
+		if rank > int64(len(vals)) {
+			rank = int64(len(vals))
+		}
+		exact := sorted[rank-1]
+		if exact < shape.Min || exact > shape.Max {
+			continue // an accepted value outside the configured range has no stated precision
+		}
+		v := h.ValueAtQuantile(q)
+		if v < exact || v-exact > bound(exact) {
+			return "ValueAtQuantile/out-of-precision", fmt.Sprintf("q=%v rank=%d exact=%d got=%d allowed [exact, exact+%d]", q, rank, exact, v, bound(exact))
+		}
+	}
+	lo, hi := sorted[0], sorted[len(sorted)-1]
+	if lo >= shape.Min {
+		if mn := h.Min(); mn > lo || lo-mn > bound(lo) {
+			return "Min/out-of-precision", fmt.Sprintf("Min()=%d, smallest recorded %d, precision %d", mn, lo, bound(lo))
+		}
+	}
+	if hi <= shape.Max {
+		if mx := h.Max(); mx < hi || mx-hi > bound(hi) {
+			return "Max/out-of-precision", fmt.Sprintf("Max()=%d, largest recorded %d, precision %d", mx, hi, bound(hi))
+		}
+	}
+	return "", ""
+}
+
+// c19Session drives one histogram through a program of recordings, resets,
+// corrected recordings and queries, and keeps working on copies obtained by
+// Export/Import and by Merge into an empty histogram of the same shape: a
+// copy that is "Equal" but lost a field shows in the later answers.
+func c19Session(r *kit.Run, i int64, rng *rand.Rand, shape c19shape) {
+	pool := c19Values(rng, shape)
+	var log []string
+	var vals []int64
+	viol := func(kind, detail string) {
+		cd := map[string]any{"mode": "session", "min": shape.Min, "max": shape.Max, "sigfigs": shape.Sig, "ops": log}
+		r.Violation("C19/"+kind, i, cd, detail, nil)
+	}
+	r.Eval()
+	kinds := map[string]bool{}
+	bad := false
+	panicked, pv, pst := kit.Guard(func() {
+		h := hdrhist.New(shape.Min, shape.Max, shape.Sig)
+		steps := 4 + rng.IntN(40)
+		pick := func() int64 { return pool[rng.IntN(len(pool))] }
+		for s := 0; s < steps && !bad; s++ {
+			switch x := rng.IntN(20); {
+			case x < 6:
+				v := pick()
+				log = append(log, fmt.Sprintf("RecordValue(%d)", v))
+				if err := h.RecordValue(v); err != nil {
+					viol("RecordValue/in-range-rejected", fmt.Sprintf("RecordValue(%d) with range [%d,%d] sigfigs %d: %v", v, shape.Min, shape.Max, shape.Sig, err))
+					bad = true
+					return
+				}
+				vals = append(vals, v)
+				kinds["rec"] = true
+			case x < 9:
+				v, n := pick(), int64(1+rng.IntN(6))
+				log = append(log, fmt.Sprintf("RecordValues(%d,%d)", v, n))
+				if err := h.RecordValues(v, n); err != nil {
+					viol("RecordValue/in-range-rejected", fmt.Sprintf("RecordValues(%d,%d) with range [%d,%d] sigfigs %d: %v", v, n, shape.Min, shape.Max, shape.Sig, err))
+					bad = true
+					return
+				}
+				for ; n > 0; n-- {
+					vals = append(vals, v)
+				}
+				kinds["recN"] = true
+			case x < 12:
+				// corrected recording: the expected interval is inside the range, so
+				// every back-filled value v-k*e >= e is a value in [min, max]
+				v := pick()
+				e := shape.Min
+				if v > shape.Min {
+					e += rng.Int64N(v - shape.Min + 1)
+				}
+				if rng.IntN(3) == 0 {
+					e = v // boundary: nothing to back-fill
+				}
+				if v/e > 150 {
+					e = v/150 + 1
+				}
+				log = append(log, fmt.Sprintf("RecordCorrectedValue(%d,%d)", v, e))
+				if err := h.RecordCorrectedValue(v, e); err != nil {
+					viol("RecordValue/in-range-rejected", fmt.Sprintf("RecordCorrectedValue(%d,%d) with range [%d,%d] sigfigs %d: %v", v, e, shape.Min, shape.Max, shape.Sig, err))
+					bad = true
+					return
+				}
+				vals = append(vals, v)
+				if v > e {
+					for m := v - e; m >= e; m -= e {
+						vals = append(vals, m)
+					}
+				}
+				kinds["corrected"] = true
+			case x < 13:
+				out := shape.Max*2 + 1 + rng.Int64N(shape.Max)
+				log = append(log, fmt.Sprintf("RecordValue(%d) (above the range)", out))
+				if h.RecordValue(out) == nil {
+					vals = append(vals, out)
+				}
+				kinds["above"] = true
+			case x < 14:
+				log = append(log, "Reset")
+				h.Reset()
+				vals = vals[:0]
+				kinds["reset"] = true
+			case x < 16:
+				log = append(log, "h = Import(h.Export())")
+				imp := hdrhist.Import(h.Export())
+				if !imp.Equals(h) || !h.Equals(imp) {
+					viol("Import/not-equal", "Import(Export(h)) is not Equal to h")
+					bad = true
+					return
+				}
+				h = imp
+				kinds["import"] = true
+			case x < 17:
+				log = append(log, "h = New(shape).Merge(h)")
+				e := hdrhist.New(shape.Min, shape.Max, shape.Sig)
+				above := false
+				for _, v := range vals {
+					above = above || v > shape.Max
+				}
+				dropped := e.Merge(h)
+				if above {
+					// accepted values beyond the configured maximum: observed only
+					if dropped != 0 || !e.Equals(h) {
+						continue
+					}
+				} else if dropped != 0 {
+					viol("Merge/dropped", fmt.Sprintf("Merge into an empty histogram of the same shape dropped %d", dropped))
+					bad = true
+					return
+				} else if !e.Equals(h) || !h.Equals(e) {
+					viol("Merge/not-equal", fmt.Sprintf("Merge into an empty histogram of the same shape is not Equal (TotalCount %d vs %d)", e.TotalCount(), h.TotalCount()))
+					bad = true
+					return
+				}
+				h = e
+				kinds["merge"] = true
+			default:
+				log = append(log, "query")
+				if k, d := c19Queries(h, vals, shape, rng, false); k != "" {
+					viol(k, d)
+					bad = true
+					return
+				}
+			}
+		}
+		if bad {
+			return
+		}
+		log = append(log, "final queries")
+		if k, d := c19Queries(h, vals, shape, rng, true); k != "" {
+			viol(k, d)
+			bad = true
+			return
+		}
+		_ = h.CumulativeDistribution()
+		_ = h.Distribution()
+		_, _ = h.StdDev(), h.Mean()
+	})
+	if panicked {
+		viol("panic", fmt.Sprintf("panic: %v\n%s", pv, clipS(pst, 1500)))
+		return
+	}
+	if bad {
+		return
+	}
+	ks := make([]string, 0, len(kinds))
+	for k := range kinds {
+		ks = append(ks, k)
+	}
+	sort.Strings(ks)
+	r.Distinct(fmt.Sprintf("session|sig=%d|minclass=%d|maxclass=%d|ops=%v", shape.Sig, bits.Len64(uint64(shape.Min)), bits.Len64(uint64(shape.Max)), ks))
+	r.Count("session_values_recorded", int64(len(vals)))
+	r.Count("sessions", 1)
+	if r.WantSample() {
+		if len(log) > 30 {
+			log = log[:30]
+		}
+		r.Sample(map[string]any{"mode": "session", "min": shape.Min, "max": shape.Max, "sigfigs": shape.Sig, "ops": log})
+	}
 }
